@@ -9,6 +9,10 @@ class OutOfSubset(Exception):
     """The function uses a construct the engine refuses to model (never silently approximated)."""
 
 
+class UnknownName(OutOfSubset):
+    """A name that is neither a local, a parameter, a known global nor a specification symbol (at run time: NameError)."""
+
+
 class ContractDrift(Exception):
     """A contract no longer binds to the source (loop signature / variable gone)."""
 
